@@ -1,4 +1,3 @@
-(* WIP *)
 (* C03 / C04 / C05 / C06 / C40 — message routing.  Component model of the routing part of the broker:
    server.go processPublish (routing part), retainMessage, publishToSubscribers, publishToClient (prefix:
    No Local, read ACL, retain flag, identifiers, QoS, offline session), publishRetainedToClient,
